@@ -15,7 +15,8 @@ import sys
 
 sys.path.insert(0, os.path.join(os.path.dirname(os.path.abspath(__file__)), "..", "lib"))
 import vlib  # noqa
-import C20_route  # noqa  (extra part: per-object routing, FedRoute.tla)
+import C20_route  # noqa
+import fedlib  # noqa  (extra part: per-object routing, FedRoute.tla)
 
 PAM = {"lib/controller/localdb/login_pam.go": "harness/stubs/login_pam_stub.go"}
 
@@ -105,8 +106,14 @@ def run(ctx):
     # RUN
     ov = ctx.harness_overlay(pkg, "harness/C20_federation", extra=PAM)
     events, out = ctx.go_run_driver(pkg, ov, "TestVerifC20$", scns, timeout=1500)
+    events = fedlib.drop_infra_traces(ctx, events, "list")
     traces = vlib.split_traces(events)
     ctx.evaluations = len(traces)
+    # what a remote backend is ASKED for is not part of the statement (only where objects are obtained from)
+    nb = sum(1 for t in traces for e in t if e["ev"] == "call" and e["c"] != t[0]["local"]
+             and any(u >= 90 or u // 10 != e["c"] for u in e["batch"]))
+    if nb:
+        ctx.drift.append("%d calls asked a remote backend for UUIDs of another cluster / malformed strings" % nb)
     unused = [t[0] for t in traces if t[0].get("unused_steps")]
     if unused:
         ctx.drift.append("%d scenarios ended before all model steps were used (first scn=%s)"
